@@ -36,6 +36,7 @@ theorem trG_recv (hl : ∀ s, (cfg.lower s).length = s.length) (n : Nat) (ih : T
   | hash k v r => exact recv_to_asg cfg sfh _ c hc (trG_hash cfg sfh n ih k v r b c hw H h1 h2')
   | typ x => exact recv_to_asg cfg sfh _ c hc (trG_typ cfg sfh n ih x b c hw H h1 h2')
   | sensitive x => exact recv_to_asg cfg sfh _ c hc (trG_sensitive cfg sfh n ih x b c hw H h1 h2')
+  | iterator x => exact recv_to_asg cfg sfh _ c hc (trG_iterator cfg sfh n ih x b c hw H h1 h2')
   | variant as =>
     have fa := H.fa; unfold Ty.TG at fa
     simp only [Ty.w] at hw
